@@ -593,7 +593,7 @@ func removeStaleSegments() {
 
 		segstore.Lock.Lock()
 		// remove unused segstores
-		if segstore.isSegstoreUnusedSinceTime(STALE_SEGMENT_DELETION_SECONDS) {
+		if segstore.isSegstoreUnusedSinceTime(STALE_SEGMENT_DELETION_SECONDS * time.Second) {
 			segStoresToDeleteChan <- streamid
 		}
 		segstore.Lock.Unlock()
@@ -609,7 +609,7 @@ func removeStaleSegments() {
 			continue
 		}
 		// Check again here to make sure we are not deleting a segstore that was updated
-		if segstore.isSegstoreUnusedSinceTime(STALE_SEGMENT_DELETION_SECONDS) {
+		if segstore.isSegstoreUnusedSinceTime(STALE_SEGMENT_DELETION_SECONDS * time.Second) {
 			log.Infof("Deleting unused segstore for segkey: %v", segstore.SegmentKey)
 			delete(allSegStores, streamid)
 		}
